@@ -200,6 +200,10 @@ pub fn catalogue() -> Vec<Entry> {
         e::<BTreeMap<u16, BTreeSet<u8>>>("BTreeMap<u16,BTreeSet<u8>>", C18, 1, 8),
         e::<LinkedList<(u8, String)>>("LinkedList<(u8,String)>", C18, 1, 8),
         e::<(i8, i16, i32, i64, isize)>("(i8,i16,i32,i64,isize)", C18, 1, 8),
+        e::<ViaMacro1<G1A>>("serialize_to_vec![G1Affine]", C18, 1, 1),
+        e::<ViaMacro2<u16, G1A>>("serialize_to_vec![u16, G1Affine]", C18, 1, 1),
+        e::<ViaMacro2<G1A, Vec<G1A>>>("serialize_to_vec![G1Affine, Vec<G1Affine>]", C18, 1, 1),
+        e::<ViaMacro2<String, Vec<u8>>>("serialize_to_vec![String, Vec<u8>]", C18, 1, 8),
         e::<WithConst<3>>("derive WithConst<3>", C18, 2, 8),
         e::<Deep>("derive Deep", C18_10, 2, 1),
         e::<Single>("derive Single", C18, 1, 8),
@@ -249,6 +253,7 @@ pub fn catalogue() -> Vec<Entry> {
     ];
     v.extend(crate::more::more());
     v.extend(crate::more::flags_entries());
+    v.extend(crate::more::extra_entries());
     const BULK: &[&str] = &[
         "Vec<u8>", "Vec<u64>", "Vec<bool>", "String", "VecDeque<u8>", "VecDeque<u32>", "&[u8]", "Cow<Vec<u8>>", "Arc<Vec<u8>>", "Vec<(u8,u64)>",
         "(u8,String)", "Cow<String>", "Rc<String>", "BigUint", "poly DensePolynomial<Fr>", "Vec<Fr>", "CompressedChecked<Vec<u8>>", "derive Single",
